@@ -396,6 +396,47 @@ def run(R):
                             % (", ".join(mods) or [o.kind for o in other]), [c.loc()])
             else:
                 R.ok("C03.cast", "evaluate|parse-arg", "parse(<payload of the evaluated operand>, unmodified)", c.loc())
+    # ---- an unknown column is an error, never a NULL
+    R.rule("C03.column", "what ColumnProvider::get returns for a column the row does not have (None) is turned into an error: no caller "
+                         "in the execution engines replaces it by a default (map_or / unwrap_or / is_none ..) - `unknown_col IS NULL` must "
+                         "report the unknown column, not answer true")
+    BADC = re.compile(r"^core::option::Option::(map_or|map_or_else|unwrap_or|unwrap_or_default|unwrap_or_else|is_none|is_some|is_some_and|is_none_or|or|or_else|xor)$")
+    PASSC = re.compile(r"^core::option::Option::(map|as_ref|cloned|copied|as_deref|filter|and_then|inspect)$")
+    n_get = 0
+    for g0 in sorted(P.fns.values(), key=lambda g_: g_.key):
+        if g0.target != "lib" or g0.derived or not g0.spath.startswith("sqlgrep::execution"):
+            continue
+        owner0 = PR.pinned_owner(P, g0)
+        if owner0.spath.endswith("ColumnProvider::exist") or owner0.spath.startswith("sqlgrep::execution::column_providers::"):
+            continue      # the existence test itself, and providers delegating to one another
+        for c in g0.calls:
+            if not (c.func.get("trait") == "sqlgrep::execution::ColumnProvider" and c.func.get("trait_method") == "get"):
+                continue
+            n_get += 1
+            frontier, bad_use, hops = [c], None, 0
+            while frontier and hops < 4 and bad_use is None:
+                hops += 1
+                nxt_ = []
+                for src in frontier:
+                    for c2 in g0.calls:
+                        if c2 is src or not c2.args or c2.args[0].get("k") not in ("copy", "move"):
+                            continue
+                        if not any(o.kind == "call" and o.call is src for o in F.origins(g0, c2.args[0], depth=4, through_calls=False)):
+                            continue
+                        if BADC.search(short(c2.name)):
+                            bad_use = c2
+                        elif PASSC.search(short(c2.name)):
+                            nxt_.append(c2)
+                frontier = nxt_
+            if bad_use is not None:
+                R.violation("C03.column", "%s|defaulted" % owner0.spath.split("::")[-1],
+                            "%s answers a missing column (ColumnProvider::get == None) with %s instead of an error: an expression over an "
+                            "unknown column gets a value (e.g. `unknown IS NULL` is true on every row) where the query must report the column"
+                            % (g0.path, short(bad_use.name).split("::")[-1]), [bad_use.loc()])
+            else:
+                R.ok("C03.column", "%s|get@%d" % (owner0.spath.split("::")[-1], n_get), "None is not defaulted", c.loc(), nontrivial=False)
+    if n_get == 0:
+        R.note("C03.column: no ColumnProvider::get call found in the execution engines")
     # ---- literals reach the engine as written
     R.rule("C03.literal", "the converter hands every literal to the engine as it was written: an ExpressionTree::Value built in "
                           "parser_tree_converter wraps the parse tree's own value, no function (type guessing, parsing, folding) in between")
